@@ -40,6 +40,9 @@ package clientgen
 //@   at-call NewRequestWithContext requires verb: arg1 == "GET"
 //@   at-call unmarshalResponse requires only_on_success: count("Do") > old(count("Do")) && lastErrNil("Do") && lastErrNil("ReadAll")
 //@   at-call handleErrorResponse requires only_on_http_error: count("Do") > old(count("Do")) && lastErrNil("Do")
+// one content type per call: what the Content-Type header announces is what the response (or the error body) is decoded with
+//@   at-call unmarshalResponse requires decoded_as_announced: arg2 == lastArgString("Set:Content-Type", "1")
+//@   at-call handleErrorResponse requires error_decoded_as_announced: arg2 == lastArgString("Set:Content-Type", "1")
 //@   ensures err == nil ==> res != nil
 
 //@ emitted func (c *noteServiceClient) UpdateNote(ctx context.Context, req *UpdateNoteRequest, opts any) (res *Note, err error)
@@ -48,4 +51,8 @@ package clientgen
 //@   at-call Do requires content_type_sent: count("Set:Content-Type") > old(count("Set:Content-Type"))
 //@   at-call NewRequestWithContext requires verb: arg1 == "PUT"
 //@   at-call NewRequestWithContext requires body_marshalled: count("marshalRequest") > old(count("marshalRequest")) && lastErrNil("marshalRequest")
+// one content type per call: the body is encoded with, and the response decoded with, the content type the header announces
+//@   at-call Do requires body_encoded_as_announced: lastArgString("Set:Content-Type", "1") == lastArgString("marshalRequest", "1")
+//@   at-call unmarshalResponse requires decoded_as_announced: arg2 == lastArgString("Set:Content-Type", "1")
+//@   at-call handleErrorResponse requires error_decoded_as_announced: arg2 == lastArgString("Set:Content-Type", "1")
 //@   ensures err == nil ==> res != nil
